@@ -195,6 +195,16 @@ def run(ctx):
         ob.note('distinct (application, parameter, index) triples give distinct index lists because each level is an injective '
                 'function of its argument (n -> n + 2^31 on [0, 2^31)) and the application code is the second level; the term '
                 'comparisons above establish that each application uses exactly its code')
+    # "the private key at the application's fully hardened path" and "indexes outside the allowed sets are rejected rather
+    # than mapped onto some other path" both rest on CKDpriv: the child is the BIP32 child and the index enters only through
+    # the unsigned 4-byte serialisation (which refuses a negative or too large number) - C01's obligations on PrvKeyNode.ckd
+    from . import C01
+    sub = ctx.__class__('C12', ctx.tier, ctx.p, ctx.seed)
+    C01.run(sub)
+    for o in sub.obligations:
+        if o.rule in ('C01.CHILD', 'C01.DATA') and 'PrvKeyNode' in (o.construct or ''):
+            o.rule = 'C12.%s(=C01)' % o.rule.split('.')[1]
+            ctx.obligations.append(o)
 
 
 def _only_key_facts(ob, known, ent, key, where):
